@@ -11,7 +11,7 @@ from vt.pyvc.termvc import Arr, lift, uf
 
 R = z3.RealSort()
 B = z3.BoolSort()
-TOQITO_RET = {"is_positive_semidefinite": B, "is_hermitian": B, "is_identity": B, "is_herm_preserving": B, "is_completely_positive": B, "is_trace_preserving": B, "kraus_to_choi": Arr, "completely_bounded_trace_norm": R, "dual_channel": Arr, "trace_norm": R, "fidelity": R, "partial_transpose": Arr, "to_density_matrix": Arr, "is_ppt": z3.BoolSort(), "hilbert_schmidt_inner_product": R, "partial_trace": Arr, "purity": R}
+TOQITO_RET = {"state_distinguishability": (R, Arr), "state_exclusion": (R, Arr), "is_positive_semidefinite": B, "is_hermitian": B, "is_identity": B, "is_herm_preserving": B, "is_completely_positive": B, "is_trace_preserving": B, "kraus_to_choi": Arr, "completely_bounded_trace_norm": R, "dual_channel": Arr, "trace_norm": R, "fidelity": R, "partial_transpose": Arr, "to_density_matrix": Arr, "is_ppt": z3.BoolSort(), "hilbert_schmidt_inner_product": R, "partial_trace": Arr, "purity": R}
 
 
 def pred(text, env):
@@ -74,6 +74,8 @@ class TermContract:
             bound.append((pname, [v]))
         bound.sort(key=lambda t: t[0])
         uname = "toqito.%s(%s)%s" % (name, ",".join(n for n, _ in bound), "[" + ",".join(sorted(consts)) + "]" if consts else "")
+        if isinstance(TOQITO_RET[name], tuple):  # a callee returning a tuple: one term per component
+            return tuple(uf("%s#%d" % (uname, k), srt, *[x for _, xs in bound for x in xs]) for k, srt in enumerate(TOQITO_RET[name]))
         return uf(uname, TOQITO_RET[name], *[x for _, xs in bound for x in xs])
 
     def callee(self, eng, name, full, args):
@@ -110,6 +112,21 @@ def tq(name, ret, consts=(), **named):
     for k, v in sorted(((n, v) for n, (kk, v) in zip(names, items)), key=lambda t: t[0]):
         flat += list(v) if isinstance(v, (list, tuple)) else [v]
     return uf(uname, ret, *flat)
+
+
+def tqt(name, k, rets, consts=(), **named):
+    """component k of a tuple-returning toqito callee applied by parameter name (mirrors bind_callee)"""
+    items = sorted(named.items())
+    uname = "toqito.%s(%s)%s" % (name, ",".join(n for n, _ in items), "[" + ",".join(sorted(consts)) + "]" if consts else "")
+    return uf("%s#%d" % (uname, k), rets[k], *[v for _, v in items])
+
+
+def isclose(a, b, rtol=1e-05, atol=1e-08):
+    return uf("np.isclose", B, a, b, rtol, atol)
+
+
+def ones_list(n):
+    return uf("list-repeat[[1]]", Arr, n)
 
 
 def allclose(a, b, rtol, atol):
@@ -225,5 +242,14 @@ CONTRACTS = {
                          lambda e: tq("completely_bounded_trace_norm", R, phi=sub(e["choi_1"], e["choi_2"])), "diamond_distance(J1, J2) == completely_bounded_trace_norm(J1 - J2) (un-halved, as the statement and the tests use it)"),
     "completely_bounded_spectral_norm": ("toqito/channel_metrics/completely_bounded_spectral_norm.py", [("phi", "arr")], [],
                                          lambda e: tq("completely_bounded_trace_norm", R, phi=tq("dual_channel", Arr, phi_op=e["phi"])), "cb spectral norm of Phi == cb trace norm of the dual map"),
+    "is_distinguishable": ("toqito/state_props/is_distinguishable.py", [("states", "arr"), ("probs", "arr")], [],
+                           lambda e: isclose(tqt("state_distinguishability", 0, (R, Arr), consts=["primal_dual='dual'"], vectors=e["states"], probs=e["probs"]), 1),
+                           "is_distinguishable(states, probs) == isclose(min-error discrimination value of the same states and priors (dual form), 1)"),
+    "is_antidistinguishable": ("toqito/state_props/is_antidistinguishable.py", [("states", "arr")], [],
+                               lambda e: isclose(tqt("state_exclusion", 0, (R, Arr), consts=["primal_dual='dual'"], vectors=e["states"], probs=ones_list(uf("len", R, e["states"]))), 0),
+                               "is_antidistinguishable(states) == isclose(min-error exclusion value of the states with unit weights (dual form), 0)"),
+    "common_quantum_overlap": ("toqito/state_props/common_quantum_overlap.py", [("states", "arr")], [],
+                               lambda e: (lambda n, v: n * (1 - (1 - v / n)))(uf("len", R, e["states"]), tqt("state_exclusion", 0, (R, Arr), consts=["primal_dual='dual'"], vectors=e["states"], probs=ones_list(uf("len", R, e["states"])))),
+                               "common_quantum_overlap(states) == n (1 - A) with A = 1 - v / n and v the exclusion value of the states with unit weights (the documented formula)"),
     "purity": ("toqito/state_props/purity.py", [("rho", "arr")], ["is_density(rho)"], lambda e: uf("np.real", R, tr(uf("np.linalg.matrix_power[2]", Arr, e["rho"]))), "purity == Re Tr(rho^2)"),
 }
